@@ -130,7 +130,7 @@ mut("c02-dedent-unclamped", "C02", "C02.R6b", (BI, "let end = std::cmp::min(star
 mut("c02-dedent-seam-unguarded", "C02", "C02.R6b", (BI, "        if bytes.get(start_byte_pos) != Some(&b'\\n') {\n            return vec![];\n        }\n", ""))
 mut("c02-clean-trims-result", "C02", "C02.R1", (CH, "    formatter::format(&removed, &removed_pos, &formatter, &structure_formatters)\n}", "    formatter::format(&removed, &removed_pos, &formatter, &structure_formatters)\n        .trim_end()\n        .to_string()\n}"))
 mut("c02-unwrap-head-from-tag-end", "C02", "C02.R7", (UB, "                        el.start_token.byte_start..end,", "                        el.start_token.byte_end..end,"))
-mut("c02-unwrap-guard-inverted", "C02", "C02.R7", (UB, "if start > end {", "if start < end {"))
+mut("c02-unwrap-guard-inverted", "C02", "C02.R7", (UB, "if start >= end {", "if start <= end {"))
 mut("c02-next-remover-plus-two", "C02", "C02.R6", (NL, "find_next_line_break_pos(content, bytes, pos + 1, true)", "find_next_line_break_pos(content, bytes, pos + 2, true)"))
 mut("c14-char-finder-skips-newline", "C14", "C14.R1", (CP, "        Some(b'\\t') => CheckResult::Skip,", "        Some(b'\\t') => CheckResult::Skip,\n        Some(b'\\n') => CheckResult::Skip,"))
 mut("c14-empty-line-not-pausing", "C14", "C14.R2", (EL, "find_next_line_break_pos(content, bytes, byte_pos, true)", "find_next_line_break_pos(content, bytes, byte_pos, false)"))
@@ -267,6 +267,23 @@ mut("c01-final-flush-plus-one", "C01", "C01.OB",
 mut("c01-unsafe-unchecked", "C01", "C01.unsafe", (LS, "    let bytes = content.as_bytes();\n    let line_start", "    let bytes = content.as_bytes();\n    let _probe = unsafe { content.get_unchecked(0..0) };\n    let line_start"))
 mut("c01-removed-len-before-push", "C01", "C01.OB", (RM, "                positions.push((marker.start - removed_len, *pair_pos));\n                removed_len += marker.end - marker.start;", "                removed_len += marker.end - marker.start;\n                positions.push((marker.start - removed_len, *pair_pos));"))
 
+# ---------------------------------------------------------------- C11
+mut("c11-two-lines-regression", "C11", "C11.R2", (UB, "if start >= end {", "if start > end {"))
+mut("c11-head-ends-at-first-break", "C11", "C11.R1", (UB, "            find_next_line_break_pos(self.content.as_ref(), bytes, el.start_token.byte_end, false)\n                .and_then(|pos| {\n                    find_next_line_break_pos(self.content.as_ref(), bytes, pos + 1, false)\n                });", "            find_next_line_break_pos(self.content.as_ref(), bytes, el.start_token.byte_end, false);"))
+mut("c11-tail-from-first-break", "C11", "C11.R1", (UB, "            find_prev_line_break_pos(self.content.as_ref(), bytes, el.end_token.byte_start, false)\n                .and_then(|pos| find_prev_line_break_pos(self.content.as_ref(), bytes, pos, false));", "            find_prev_line_break_pos(self.content.as_ref(), bytes, el.end_token.byte_start, false);"))
+mut("c11-wrapper-scan-pausing", "C11", "C11.R1", (UB, "find_next_line_break_pos(self.content.as_ref(), bytes, pos + 1, false)", "find_next_line_break_pos(self.content.as_ref(), bytes, pos + 1, true)"))
+mut("c11-strategy-keyword", "C11", "C11.R3", (CH, 'UnwrapBlockMarkerAvailability::new("unwrap-block")', 'UnwrapBlockMarkerAvailability::new("unwrap")'))
+mut("c11-pair-without-ordering-test", "C11", "C11.R2", (UB, "if start >= end {", "if start >= end || start + 1 >= end {"))
+
+# ---------------------------------------------------------------- C13
+mut("c13-empty-line-ignores-next", "C13", "C13.R3", (EL, "        if is_not_next_line_empty && is_not_prev_line_empty {", "        if is_not_prev_line_empty {"))
+mut("c13-empty-line-or", "C13", "C13.R3", (EL, "        if is_not_next_line_empty && is_not_prev_line_empty {", "        if is_not_next_line_empty || is_not_prev_line_empty {"))
+mut("c13-prev-remover-single-break", "C13", "C13.R4", (PL, "        let line_break_pos = find_prev_line_break_pos(content, bytes, byte_pos, true)\n            .and_then(|pos| find_prev_line_break_pos(content, bytes, pos, true));", "        let line_break_pos = find_prev_line_break_pos(content, bytes, byte_pos, true);"))
+mut("c13-next-remover-single-break", "C13", "C13.R4", (NL, "        let line_break_pos = find_next_line_break_pos(content, bytes, byte_pos, true)\n            .and_then(|pos| find_next_line_break_pos(content, bytes, pos + 1, true));", "        let line_break_pos = find_next_line_break_pos(content, bytes, byte_pos, true);"))
+mut("c13-hull-intersection", "C13", "C13.R1", (FM, "        let start = start.min(range.start);\n        let end = end.max(range.end);", "        let start = start.max(range.start);\n        let end = end.max(range.end);"))
+mut("c13-formatter-dropped", "C13", "C13.R1", (CH, "        Box::new(formatter::prev_line_break_remover::PrevLineBreakRemover {}),\n", ""))
+mut("c13-formatter-asked-elsewhere", "C13", "C13.R1", (FM, "        let (start, end) = f.format(content, pos);", "        let (start, end) = f.format(content, range.end);"))
+
 # ---------------------------------------------------------------- benign variants (every rule silent)
 benign("b-c05-single-expression", (TL, "if self.current_time < expires.unwrap() {\n            return false;\n        }\n\n        true", "self.current_time >= expires.unwrap()"))
 benign("b-c05-format-shorthand", (TL, 'parse_from_str(&expires_str, "%Y-%m-%d %H:%M:%S %z")', 'parse_from_str(&expires_str, "%F %T %z")'))
@@ -276,11 +293,11 @@ benign("b-c06-match-instead-of-iflet", (MK, "if let Some(name_attr_value) = name
 benign("b-keyword-compare-commuted", (TL, 'a.name == "to"', '"to" == a.name'), (RM, 'v.name == "skip"', '"skip" == v.name'))
 benign("b-remover-negated-skip", (RM, "let range = if is_skip(&el.start_element) {\n                        None\n                    } else {", "let range = if !(!is_skip(&el.start_element)) {\n                        None\n                    } else {"))
 benign("b-unused-helper-and-comments", (RM, "fn is_skip(el: &Element) -> bool {", "// helper kept for later\n#[allow(dead_code)]\nfn never_called(x: usize) -> usize {\n    x\n}\n\nfn is_skip(el: &Element) -> bool {"))
-benign("b-unwrap-guard-ge-commuted", (UB, "if start > end {", "if end < start {"))
+benign("b-unwrap-guard-ge-commuted", (UB, "if start >= end {", "if end <= start {"))
 
 benign("b-finder-commuted-bounds", (LB, "if cursor >= bytes.len() || cursor == 0 {", "if bytes.len() <= cursor || 0 == cursor {"))
 benign("b-empty-line-negated-eq", (EL, "if bytes.get(byte_pos) != Some(&b'\\n') {", "if !(bytes.get(byte_pos) == Some(&b'\\n')) {"))
-benign("b-unwrap-guard-two-lines", (UB, "if start > end {", "if start >= end {"))
+benign("b-unwrap-tail-start-match", (UB, "let tail_start = if start == end { start } else { start + 1 };", "let tail_start = match start == end {\n                        true => start,\n                        false => start + 1,\n                    };"))
 benign("b-format-let-introduced", (FM, "        let range = format_block(content, *pos, formatters);\n        ranges.push(range);", "        let p = *pos;\n        let range = format_block(content, p, formatters);\n        ranges.push(range);"))
 
 benign("b-tokenizer-redispatch-inlined", (TK, "get_state(c, delimiter_start, delimiter_end, State::Text)", "match check_delimiter_start(c, delimiter_start) {\n                            State::DelimiterStart(chars) => (Some(TokenKind::Text), State::DelimiterStart(chars)),\n                            _ => (None, State::Text),\n                        }"))
@@ -297,6 +314,8 @@ benign("b-c01-indent-guard-commuted", (IR, "            if cursor == 0 {\n      
 benign("b-c01-functions-reordered", (LB, "#[derive(Debug)]\nenum CheckResult {\n    Skip,\n    Found,\n    None,\n}\n\nfn check(", "// moved below\n#[derive(Debug)]\nenum CheckResult {\n    Skip,\n    Found,\n    None,\n}\n\n#[inline]\nfn check("))
 benign("b-c12-rebase-guard-commuted", (RM, "Some(p) if start_cursor <= *p && *p < end_cursor => {", "Some(p) if *p >= start_cursor && end_cursor > *p => {"))
 benign("b-c17-loop-form", (RM, "                if pending_range.start >= range.end {\n                    break;\n                }", "                if range.end <= pending_range.start {\n                    break;\n                }"))
+
+benign("b-indent-start-of-file-accepted", (IR, "            if cursor == 0 {\n                break false;\n            }", "            if cursor == 0 {\n                break true;\n            }"))
 
 with open(os.path.join(os.path.dirname(os.path.abspath(__file__)), "mutants.json"), "w") as f:
     json.dump(C, f, indent=1)
